@@ -142,10 +142,22 @@ def job_stitch(job):
     # input class with its own key: n > 1 and one of the series to be stitched has no rows (pd.concat(axis=1) then returns an
     # unsorted union index, which df_slice goes on to slice by label)
     special = K_EMPTY_STITCH if (n > 1 and any(len(x) == 0 for x in series)) else None
+    ub_list, obj_list = [ts(u) for u in ubs], list(objs)
     try:
-        r = df_slice(objs, ub=[ts(u) for u in ubs], n=n) if n > 1 else df_slice(objs, ub=[ts(u) for u in ubs])
+        r = df_slice(obj_list, ub=ub_list, n=n) if n > 1 else df_slice(obj_list, ub=ub_list)
     except Exception as e:      # noqa
         return 1, [('C13:stitch:raises', 'df_slice(%s, ub=%s, n=%d) raised %s: %s' % (series, ubs, n, type(e).__name__, e), call)]
+    # the caller's lists are still his: the same list objects passed again give the same answer (series i still pairs with bound i)
+    if ub_list != [ts(u) for u in ubs] or len(obj_list) != len(objs) or any(a is not b for a, b in zip(obj_list, objs)):
+        out.append(('C13:stitch:arguments-unchanged', 'df_slice(%s, ub=%s, n=%d) rearranged the lists it was given: ub is now %s' % (
+            series, ubs, n, [(t - DAY0).days for t in ub_list]), call))
+    else:
+        try:
+            r2 = df_slice(obj_list, ub=ub_list, n=n) if n > 1 else df_slice(obj_list, ub=ub_list)
+            if not (type(r2) is type(r) and r2.equals(r)):
+                out.append(('C13:stitch:repeat-call', 'df_slice(%s, ub=%s, n=%d) called twice with the same list objects gives two different results' % (series, ubs, n), call))
+        except Exception as e:      # noqa
+            out.append(('C13:stitch:repeat-call', 'df_slice(%s, ub=%s, n=%d) called a second time with the same list objects raised %r' % (series, ubs, n, e), call))
     if not isinstance(r, pd.DataFrame if n > 1 else pd.Series):
         return 1, [('C13:stitch:type', 'df_slice(%s, ub=%s, n=%d) returned %s' % (series, ubs, n, type(r).__name__), call)]
     days = [(t - DAY0).days for t in r.index]
